@@ -1682,7 +1682,17 @@ def _gen_function(kv, sections, repo, res: UnitResult, variant) -> list:
         out_lines[ix:ix] = lab
     # canary variant
     if variant.get("ensures_false") == fid:
-        contract_lines = contract_lines + [GenLine("    ensures false, // CANARY", ("gen", "canary"))]
+        # vacuity canary: `false` becomes the first postcondition (syntactically safe: `ensures false, <the others>`)
+        done = False
+        for cl in contract_lines:
+            code = cl.text.split("//")[0]
+            mm_ = re.search(r"\bensures\b", code)
+            if mm_:
+                cl.text = cl.text[:mm_.end()] + " false, /*CANARY*/" + cl.text[mm_.end():]
+                done = True
+                break
+        if not done:
+            contract_lines = contract_lines + [GenLine("    ensures false, // CANARY", ("gen", "canary"))]
     sig_lines = [GenLine(l, ("src", span.file, _line_of(src, sig_a) + off) if sig_override is None else ("tpl", 0, fid + ".sig", "sig"))
                  for off, l in enumerate(sig_text.rstrip().split("\n"))]
     res.functions.append({
